@@ -151,8 +151,8 @@ class Hist:
         except Exception as e:
             s.bad = ('valid call raised', '`%s` raised %s: %s' % (line, type(e).__name__, e)); return
         for name in list(s.refs):
-            m = s.ns[name]
             try:
+                m = eval(name, s.ns)
                 a = audit(m)
             except Exception as e:
                 a = 'reading the model raised %s: %s' % (type(e).__name__, e)
@@ -160,6 +160,15 @@ class Hist:
                 s.bad = ('native adjacency malformed', 'after `%s`: %s: %s' % (line, name, a)); return
             ref = s.refs[name]
             g = got(m)
+            if ref.kind == 'expr':
+                # an expression of a CQM lists its variables in its own order and may keep or drop a variable without terms:
+                # the polynomial is compared up to order and zero linear biases of variables without interaction
+                used = {v for k in g[2] for v in k} | {v for k in ref.quad for v in k}
+                nz = lambda lin: {v: x for v, x in lin.items() if x != 0 or v in used}
+                if (nz(g[1]), g[2], g[3]) != (nz(ref.lin), ref.quad, ref.off):
+                    s.bad = ('wrong polynomial', 'after `%s`: %s holds %s, the polynomial is %s' % (line, name, flt(g), flt((ref.labels, ref.lin, ref.quad, ref.off))))
+                    s.expect = None; return
+                continue
             if g != (ref.labels, ref.lin, ref.quad, ref.off):
                 s.bad = ('wrong polynomial', 'after `%s`: %s holds %s, the polynomial is %s' % (line, name, flt(g), flt((ref.labels, ref.lin, ref.quad, ref.off))))
                 s.expect = (name, flt((ref.labels, ref.lin, ref.quad, ref.off))); return
@@ -417,6 +426,129 @@ def symbolic_history(r):
     return h, site
 
 
+def cqm_history(r):
+    """operations that BUILD A NEW native model from a constrained model: `fix_variables(..., inplace=False)`, `copy.deepcopy`,
+    `from_file(to_file())`, `spin_to_binary(inplace=False)`, `relabel_variables(inplace=False)`; the objective and every
+    constraint of the RESULT (and of the source, which must be unchanged) are audited, then the result is edited"""
+    h = Hist(r)
+    h.ns['copy'] = __import__('copy')
+    pool = [v for v in QL if DECL[v][0] != 'REAL']
+    allv = r.sample(pool, r.randint(4, 6))
+    h.do('c = dimod.ConstrainedQuadraticModel()')
+    exprs = []
+    nexpr = r.randint(1, 3)
+    for k in range(nexpr):
+        name = 'q%d' % k
+        vs = r.sample(allv, r.randint(3, min(5, len(allv))))
+        h.new(name, 'qm', r.choice(DT))
+        order = list(vs); r.shuffle(order)
+        for v in order:
+            h.addvar(name, v)
+        pairs = [(u, v) for i, u in enumerate(vs) for v in vs[i + 1:]]
+        r.shuffle(pairs)
+        steps = [('q', p if r.random() < .5 else p[::-1]) for p in pairs[:max(3, r.randint(2, len(pairs)))]]
+        steps += [('l', v) for v in r.sample(vs, r.randint(1, len(vs) - 1))]      # some variables keep a zero linear bias
+        r.shuffle(steps)
+        for kind, x in steps:
+            if kind == 'q':
+                h.aq(name, x[0], x[1], q4(r))
+            else:
+                h.al(name, x, q4(r))
+        if r.random() < .5:
+            h.refs[name].off += F(1, 2); h.do('%s.offset += 0.5' % name)
+        exprs.append(name)
+    # the CQM holds copies of the models
+    h.do('c.set_objective(%s)' % exprs[0], 'ConstrainedQuadraticModel.set_objective')
+    views = {'c.objective': h.refs[exprs[0]].copy()}
+    for k, name in enumerate(exprs[1:]):
+        h.do("c.add_constraint_from_model(%s, %r, 1.0, label='k%d', copy=True)" % (name, r.choice(['<=', '>=', '==']), k), 'ConstrainedQuadraticModel.add_constraint_from_model')
+        views["c.constraints['k%d'].lhs" % k] = h.refs[name].copy()
+    for nm, ref in views.items():
+        ref.kind = 'expr'; h.refs[nm] = ref
+    h.do('pass')
+    if h.bad:
+        return h, h.site
+    builder = r.choice(['fix', 'fix', 'fix', 'deepcopy', 'file', 'stb', 'fix1'])
+    h.cls = 'new constrained model by ' + {'fix': 'fix_variables(inplace=False)', 'fix1': 'fix_variables(inplace=False)', 'deepcopy': 'copy.deepcopy',
+                                           'file': 'from_file(to_file())', 'stb': 'spin_to_binary(inplace=False)'}[builder]
+    def fixed_ref(ref, fixed):
+        n = R('expr')
+        n.off = ref.off
+        for v in ref.labels:
+            if v in fixed:
+                n.off += ref.lin[v] * fixed[v]
+            else:
+                n.ensure(v); n.lin[v] += ref.lin[v]
+        for kk, b in ref.quad.items():
+            t = tuple(kk); u, v = t[0], t[-1]
+            if u in fixed and v in fixed:
+                n.off += b * fixed[u] * fixed[v]
+            elif u in fixed:
+                n.ensure(v); n.lin[v] += b * fixed[u]
+            elif v in fixed:
+                n.ensure(u); n.lin[u] += b * fixed[v]
+            else:
+                n.ensure(u); n.ensure(v); n.quad[kk] = n.quad.get(kk, F(0)) + b
+        return n
+    if builder in ('fix', 'fix1'):
+        cand = list(allv)
+        fv = r.sample(cand, 1 if builder == 'fix1' else r.randint(0, max(0, len(cand) - 3)))
+        fixed = {}
+        for v in fv:
+            vt = DECL[v][0]
+            fixed[v] = F(r.choice([0, 1])) if vt == 'BINARY' else F(r.choice([-1, 1])) if vt == 'SPIN' else F(r.choice([0, 1, 2]))
+        new = {nm.replace('c.', 'n.', 1): fixed_ref(ref, fixed) for nm, ref in views.items()}
+        for nm, ref in new.items():
+            h.refs[nm] = ref
+        h.do('n = c.fix_variables(%r, inplace=False)' % ({v: float(x) for v, x in fixed.items()},), 'ConstrainedQuadraticModel.fix_variables(inplace=False)')
+    elif builder == 'deepcopy':
+        for nm, ref in views.items():
+            h.refs[nm.replace('c.', 'n.', 1)] = ref.copy()
+        h.do('n = copy.deepcopy(c)', 'copy.deepcopy(ConstrainedQuadraticModel)')
+    elif builder == 'file':
+        for nm, ref in views.items():
+            h.refs[nm.replace('c.', 'n.', 1)] = ref.copy()
+        h.do('n = dimod.ConstrainedQuadraticModel.from_file(c.to_file())', 'ConstrainedQuadraticModel.from_file')
+    else:
+        # s = 2x - 1 for every SPIN variable
+        def stb(ref):
+            n = ref.copy()
+            for v in list(n.labels):
+                if DECL[v][0] != 'SPIN':
+                    continue
+                n.off -= n.lin[v]
+                for kk in list(n.quad):
+                    if v in kk and len(kk) == 2:
+                        w = next(iter(kk - {v})); b = n.quad[kk]
+                        n.lin[w] -= b; n.quad[kk] = 2 * b
+                n.lin[v] *= 2
+            return n
+        for nm, ref in views.items():
+            h.refs[nm.replace('c.', 'n.', 1)] = stb(ref)
+        h.do('n = c.spin_to_binary(inplace=False)', 'ConstrainedQuadraticModel.spin_to_binary(inplace=False)')
+    site = h.site
+    # edit the result
+    names = [nm for nm in h.refs if nm.startswith('n.')]
+    for _ in range(r.randint(2, 5)):
+        if h.bad or not names:
+            break
+        nm = r.choice(names); ref = h.refs[nm]
+        keys = sorted(ref.quad, key=repr)
+        c = r.choice(['ri', 'sq', 'aq', 'aq'])
+        if c == 'ri' and keys:
+            t = tuple(r.choice(keys)); u, v = (t[0], t[-1]) if r.random() < .5 else (t[-1], t[0])
+            del ref.quad[frozenset((u, v))]
+            h.do('%s.remove_interaction(%r, %r)' % (nm, u, v), 'remove_interaction')
+        elif c == 'sq' and keys:
+            t = tuple(r.choice(keys)); u, v = (t[0], t[-1]) if r.random() < .5 else (t[-1], t[0])
+            h.aq(nm, u, v, q4(r), 'set_quadratic')
+        elif len(ref.labels) >= 2:
+            u, v = r.sample(ref.labels, 2)
+            if u != v and DECL[u][0] != 'REAL' and DECL[v][0] != 'REAL':
+                h.aq(nm, u, v, q4(r), 'add_quadratic')
+    return h, site
+
+
 def graphs3(labels):
     prs = list(itertools.combinations(labels, 2))
     for bits in range(1, 1 << len(prs)):
@@ -435,7 +567,7 @@ def main():
         tick('pyseq:' + tag)
         ticks['pyseq-lines'] = ticks.get('pyseq-lines', 0) + len(h.lines)
         if h.bad:
-            out.append(dict(site=site if site != 'construction' else h.site, cls=h.cls + ' (' + h.bad[0] + ')', what=h.bad[1], lines=h.lines, expect=h.expect))
+            out.append(dict(site=site if site != 'construction' else h.site, cls=h.cls + ' (' + h.bad[0] + ')', what=h.bad[1], lines=h.lines, expect=h.expect, names=list(h.refs)))
     RC = ['empty', 'linear-only', 'linear-only', 'interactions', 'self-loop']
     OC = ['disjoint', 'same-order', 'permuted', 'permuted', 'subset', 'superset']
     OPS = ['update', 'update', 'iadd', 'add', 'sub', 'isub']
@@ -462,6 +594,10 @@ def main():
         h, site = one_history(r, kind, rcls, ocls, op, dta, dtb)
         print('@' + json.dumps(h.lines), flush=True)
         finish(h, site, '%s:%s:%s/%s' % (kind, op, rcls, ocls))
+    for i in range(nrand // 3):
+        print('@' + json.dumps(['cqm']), flush=True)
+        h, site = cqm_history(r)
+        finish(h, site, 'cqm:' + h.cls)
     # small scope, exhaustive
     V3 = ['a', 'e', 0]      # three INTEGER variables (a QM) / three labels (a BQM)
     for kind in ('qm', 'bqm'):
@@ -482,16 +618,21 @@ def main():
 main()
 '''
 
-REPRO = '''import numpy as np, dimod
+REPRO = '''import copy
+import numpy as np, dimod
 %(audit)s
 lines = %(lines)r
-ns = {'dimod': dimod, 'np': np}
+names = %(names)r
+ns = {'dimod': dimod, 'np': np, 'copy': copy}
 for ln in lines:
     exec(ln, ns)
-    for name in ('m', 'o', 'n'):
-        if name in ns:
-            bad = audit(ns[name])
-            assert not bad, 'after `%%s`: %%s: %%s' %% (ln, name, bad)
+    for name in names:
+        try:
+            obj = eval(name, ns)
+        except (NameError, KeyError, AttributeError):
+            continue
+        bad = audit(obj)
+        assert not bad, 'after `%%s`: %%s: %%s' %% (ln, name, bad)
 '''
 
 REPRO_POLY = REPRO + '''
@@ -546,7 +687,7 @@ def pyseq_part(ctx):
         ctx.fail('crash', site, 'interpreter died during a valid call sequence',
                  f'child exited {rc} while running `{call}`; stderr: {(err2 or err)[-400:]}',
                  repro=("import subprocess, sys\nsrc = %r\np = subprocess.run([sys.executable, '-c', src], capture_output=True, text=True)\n"
-                        "print(p.stdout[-800:], p.stderr[-800:]); assert p.returncode == 0\n" % (REPRO % dict(audit=audit_src(), lines=hist),)) if hist else None,
+                        "print(p.stdout[-800:], p.stderr[-800:]); assert p.returncode == 0\n" % (REPRO % dict(audit=audit_src(), lines=hist, names=['m', 'o', 'n', 'c.objective', 'n.objective'] + ["%s.constraints['k%d'].lhs" % (x, k) for x in 'cn' for k in range(3)]),)) if hist else None,
                  detail=dict(seed=seed, nrand=nrand, history=hist[-14:]))
         return
     for k, v in res['ticks'].items():
@@ -557,7 +698,7 @@ def pyseq_part(ctx):
              sample=dict(kind='valid Python call sequences on two cooperating models', histories=res['histories'], failures=res['nfail']))
     for f in res['failures']:
         if f.get('expect'):
-            rp = REPRO_POLY % dict(audit=audit_src(), lines=f['lines'], name=f['expect'][0], expect=f['expect'][1])
+            rp = REPRO_POLY % dict(audit=audit_src(), lines=f['lines'], names=f.get('names', ['m', 'o', 'n']), name=f['expect'][0], expect=f['expect'][1])
         else:       # malformed adjacency (the audit asserts) or a valid call that raised (the replay raises)
-            rp = REPRO % dict(audit=audit_src(), lines=f['lines'])
+            rp = REPRO % dict(audit=audit_src(), lines=f['lines'], names=f.get('names', ['m', 'o', 'n']))
         ctx.fail('property', f['site'], f['cls'], f['what'], repro=rp, detail=dict(history=f['lines'][-14:]))
